@@ -46,6 +46,7 @@ func (r *Raft) replyRPC(rpc *rpc) (resetTimer bool) {
 		} else {
 			rpc.resp = rpcIdentity.createResp(r, success, nil)
 		}
+		verifPoint("rpc.identity", r, req, rpc)
 		close(rpc.done)
 		return req.src == r.leader
 	}
@@ -61,6 +62,7 @@ func (r *Raft) replyRPC(rpc *rpc) (resetTimer bool) {
 	if trace {
 		println(r, ">>", rpc.resp)
 	}
+	verifPoint("rpc.handled", r, rpc, result)
 	close(rpc.done)
 
 	if result == unexpectedErr {
@@ -192,10 +194,12 @@ func (r *Raft) onAppendEntriesRequest(req *appendReq, c *conn) (rpcResult, error
 	if req.numEntries > 0 {
 		defer func() {
 			if syncLog {
+				verifPoint("append.beforeFlush", r)
 				if trace {
 					println(r, "log.Commit", r.lastLogIndex)
 				}
 				r.storage.commitLog(r.lastLogIndex)
+				verifPoint("append.flushed", r)
 				if r.canCommit(req, index, term) {
 					r.setCommitIndex(index)
 					r.applyCommitted(nil)
@@ -232,6 +236,7 @@ func (r *Raft) onAppendEntriesRequest(req *appendReq, c *conn) (rpcResult, error
 				println(r, "log.removeGTE", ne.index)
 			}
 			r.storage.removeGTE(ne.index, prevTerm)
+			verifPoint("append.truncated", r, ne.index)
 			if ne.index <= r.configs.Latest.Index {
 				r.revertConfig()
 			}
@@ -303,6 +308,7 @@ func (r *Raft) onInstallSnapRequest(req *installSnapReq, c *conn) (rpcResult, er
 	if doneErr != nil {
 		return unexpectedErr, opError(doneErr, "snapshotSink.done")
 	}
+	verifPoint("snap.published", r, meta.index)
 
 	discardLog := true
 	if r.storage.log.Contains(meta.index) {
@@ -323,6 +329,7 @@ func (r *Raft) onInstallSnapRequest(req *installSnapReq, c *conn) (rpcResult, er
 		if err = r.storage.clearLog(); err != nil {
 			return unexpectedErr, err
 		}
+		verifPoint("snap.logCleared", r, meta.index)
 
 		// todo: dont wait for restoreFSM to complete
 		//       if restoreFSM fails panic and exit
